@@ -24,7 +24,7 @@ MIN_NONTRIVIAL = {"quick": 200, "thorough": 2000}
 REQUIRED_FUNCTIONS = ["listener.py:BlackbirdListener.exitInclude", "listener.py:BlackbirdListener.exitStatement", "__init__.py:load"]
 FUNCTIONS = REQUIRED_FUNCTIONS + ["program.py:BlackbirdProgram.__call__"]
 REQUIRED_TAGS = ["nested>=2", "repeat-call", "template-call", "cwd:main-dir", "cwd:parent", "cwd:root", "cwd:unrelated", "path:relative",
-                 "path:absolute", "include:subdir", "include:repeated-line", "include:abs+rel", "neg:arity", "neg:keywords", "include:symlink-dotdot", "call-in-loop", "template-call-in-loop", "include:gate-named-like-another-subroutine", "equal-but-different-values", "keyword-order-shuffled", "same-values-other-keywords", "call-transitively-included"]
+                 "path:absolute", "include:subdir", "include:repeated-line", "include:abs+rel", "neg:arity", "neg:keywords", "include:symlink-dotdot", "call-in-loop", "template-call-in-loop", "include:gate-named-like-another-subroutine", "equal-but-different-values", "keyword-order-shuffled", "same-values-other-keywords", "call-transitively-included", "include:all-absolute"]
 ASSUMPTIONS = ["reference inlining rule: DESIGN Appendix A rule 11 (sorted(sub.modes) -> call modes, parameters bound from keywords)",
                "files are ASCII; sub-programs contain no measured registers (the statement renames modes only)"]
 
@@ -171,6 +171,10 @@ def build(rng, g, symbolic_args=False, regref_args=False):
         elif c < 0.4:
             inc[-1] = 'include "@ABS@/%s"' % path
             tags.add("include:absolute-only")
+    if rng.random() < 0.15:
+        # every include of the main script absolute: such a script can also be given to loads()
+        inc = ['include "@ABS@/%s"' % s_[1] for s_ in subs]
+        tags.add("include:all-absolute")
     rng.shuffle(inc)
     lines.extend(inc)
     lines.append("")
@@ -425,6 +429,30 @@ def check_tree(ctx, files, main_path, info, rng, negative=None):
             ids = [id(o) for o in prog.operations]
             if len(set(ids)) != len(ids):
                 return ctx.violation("aliased-operations", "the same operation object occurs twice in the loaded program", w)
+        main_text = files[main_path]
+        inc_lines = [ln for ln in main_text.split("\n") if ln.startswith("include ")]
+        if inc_lines and all(ln.startswith('include "@ABS@/') for ln in inc_lines):
+            # no relative path in the main script: the text alone denotes the same program,
+            # whatever the working directory of the process is
+            import blackbird
+
+            old_cwd = os.getcwd()
+            prog = exc = None
+            try:
+                os.chdir(other)
+                try:
+                    prog = blackbird.loads(main_text.replace("@ABS@", root))
+                except Exception as e:
+                    exc = e
+            finally:
+                os.chdir(old_cwd)
+            ctx.hook("loads() of a main script with absolute includes")
+            w = dict(witness, via="loads", cwd="cwd:unrelated")
+            if exc is not None:
+                return ctx.violation("loads-raises:" + common.exc_key(exc), "loads() of the main script (all includes absolute) raised %s" % common.exc_text(exc), w)
+            d = content.diff_ref(ref, content.program_content(prog), seed="C07")
+            if d:
+                return ctx.violation("loads:" + common.diff_key(d), "loads() of the main script (all includes absolute): %s" % common.diff_text(d), w)
     finally:
         shutil.rmtree(root, ignore_errors=True)
         shutil.rmtree(other, ignore_errors=True)
